@@ -61,7 +61,8 @@ def shards(tier, seed):
                         'method': m, 'arg': a, 'lo': c * CHUNK,
                         'hi': min(0x110000, (c + 1) * CHUNK)})
             k += 1
-    return out
+    return out[:5] + common.with_configs(out[:5], common.ALL_CONFIGS,
+                                         take=5)[5:] + out[5:]
 
 
 def cases(shard, rnd):
@@ -172,15 +173,25 @@ def _decide(spec, cls, arg, v, phase):
         setattr(c.value, arg, v)
     except Exception as e:
         return 'setattr:' + type(e).__name__
-    m = common.lib_marshal(c.value, 1)
-    if m.ok:
-        return 'accepted'
-    return m.exc_type or 'budget'
+    outcomes = []
+    for attempt in range(3):        # a caller that retries the same object
+        m = common.lib_marshal(c.value, 1)
+        outcomes.append('accepted' if m.ok else (m.exc_type or 'budget'))
+    if len(set(outcomes)) != 1:
+        return 'attempts-differ:' + '/'.join(outcomes)
+    return outcomes[0]
 
 
 def _judge(rec, case, spec, arg, v, phase, outcome):
     broken = refspec.violates(spec.name, {arg: v})
     kind, _ = gf.constraint_of(spec, arg)
+    if outcome.startswith('attempts-differ:'):
+        rec.violation('marshal-attempts-differ:%s' % phase,
+                      '%s with %s=%s set after construction: three '
+                      'frame.marshal attempts on the same unchanged object '
+                      'gave %s' % (spec.name, arg, _short(v),
+                                   outcome.split(':', 1)[1]), case)
+        return False
     if broken and outcome != 'ValueError':
         what = ('too-long' if isinstance(v, str) and kind in refspec.LIMITS
                 and len(v) > refspec.LIMITS[kind] else 'bad-value')
